@@ -20,6 +20,8 @@ struct Hist {
     effective_edit_after_stop: bool,
     effective_edit_after_compile: bool,
     compiled: bool,
+    /// trace mode as the history left it (TRON typed; NEW and loads switch it off)
+    tron: bool,
     labels: Vec<&'static str>,
 }
 
@@ -189,6 +191,9 @@ fn play_history(t: &mut Tape, h: &mut Hist, want_stop: bool) -> Result<(), (Stri
                 let mut o = h.opts(400);
                 h.term.line(&cmd, &mut o);
                 h.compiled = true;
+                if cmd == "TROFF" {
+                    h.tron = false;
+                }
                 if cmd == "CLEAR" {
                     h.stopped_run = false;
                     h.effective_edit_after_stop = false;
@@ -228,12 +233,46 @@ fn play_history(t: &mut Tape, h: &mut Hist, want_stop: bool) -> Result<(), (Stri
                 let out = flat(&h.term.log);
                 h.stopped_run = out.contains("?BREAK IN") || h.term.rt.verif_probe().stack_len > 0;
             }
-            6 => {
-                if t.chance(1, 4) {
+            6 => match t.below(4) {
+                0 => {
                     h.edit("NEW");
                     h.stopped_run = false;
+                    h.tron = false;
                 }
-            }
+                1 => {
+                    // a load in mid-history: the other program replaces the stored one
+                    let before = listing(&h.term);
+                    let mut l = basic::mach::Listing::default();
+                    let texts: Vec<String> = g2.prog.texts();
+                    for x in &texts {
+                        let _ = l.load_str(x);
+                    }
+                    h.note(&format!("set_listing({} lines):\n{}", texts.len(), texts.join("\n")));
+                    h.term.rt.set_listing(l, false);
+                    let mut o = h.opts(100);
+                    h.term.run(&mut o);
+                    h.term.take();
+                    if before != listing(&h.term) {
+                        if h.compiled {
+                            h.effective_edit_after_compile = true;
+                        }
+                        if h.stopped_run {
+                            h.effective_edit_after_stop = true;
+                        }
+                        h.labels.push("load in mid-history");
+                    }
+                    h.stopped_run = false;
+                    h.tron = false;
+                }
+                2 => {
+                    h.note("enter \"TRON\"");
+                    let mut o = h.opts(100);
+                    h.term.line("TRON", &mut o);
+                    h.tron = true;
+                    h.labels.push("TRON typed during the history");
+                }
+                _ => {}
+            },
             _ => {
                 // CONT a few times (walks further into the program)
                 h.note("enter \"CONT\"");
@@ -270,7 +309,7 @@ fn play_history(t: &mut Tape, h: &mut Hist, want_stop: bool) -> Result<(), (Stri
 }
 
 fn new_hist() -> Hist {
-    Hist { term: Term::new(), script: String::new(), replies: vec![], stopped_run: false, effective_edit_after_stop: false, effective_edit_after_compile: false, compiled: false, labels: vec![] }
+    Hist { term: Term::new(), script: String::new(), replies: vec![], stopped_run: false, effective_edit_after_stop: false, effective_edit_after_compile: false, compiled: false, tron: false, labels: vec![] }
 }
 
 // ------------------------------------------------------------------ A: RUN equals RUN in a fresh interpreter
@@ -304,6 +343,9 @@ fn check_run_fresh(t: &mut Tape, ctx: &Ctx) -> Outcome {
             f.enter_raw(l);
             f.run(&mut of);
         }
+        if h.tron {
+            f.line("TRON", &mut of);
+        }
         f.take();
         let end_f = f.line("RUN", &mut of);
         let ev_f = f.take();
@@ -324,7 +366,6 @@ fn check_run_fresh(t: &mut Tape, ctx: &Ctx) -> Outcome {
     }
     h.note(&format!("enter {:?}   <- compared with a fresh interpreter holding the listing", cmd));
     crate::runner::note_case(&h.script);
-    // the history may have left TRON on only through its own statements: none do
     let mut o = h.opts(4000);
     let end_h = h.term.line(&cmd, &mut o);
     let ev_h = h.term.take();
@@ -340,6 +381,11 @@ fn check_run_fresh(t: &mut Tape, ctx: &Ctx) -> Outcome {
         f.run(&mut of);
     }
     let pre = f.take();
+    if h.tron {
+        // trace mode is the one thing the history may legitimately have left switched on
+        f.line("TRON", &mut of);
+        f.take();
+    }
     let end_f = f.line(&cmd, &mut of);
     let ev_f = f.take();
     let mut probes_f = String::new();
@@ -394,7 +440,7 @@ fn check_no_resume(t: &mut Tape, ctx: &Ctx) -> Outcome {
     if nums.is_empty() {
         return Outcome::discard("empty listing");
     }
-    let kind = t.below(9);
+    let kind = t.below(10);
     let n = *t.pick(&nums);
     let cmd = match kind {
         6 => {
@@ -423,6 +469,8 @@ fn check_no_resume(t: &mut Tape, ctx: &Ctx) -> Outcome {
         4 => "RENUM 3,0,7".to_string(),
         7 => "NEW".to_string(),
         8 => String::new(),
+        // deleting a line that does not exist: the listing stays, the continuation point goes
+        9 => format!("{}", pick_line_no(t, &nums)),
         _ => format!("DELETE {}-", n),
     };
     let eff = if kind == 8 {
@@ -445,13 +493,21 @@ fn check_no_resume(t: &mut Tape, ctx: &Ctx) -> Outcome {
     } else {
         h.edit(&cmd)
     };
-    if !eff || !h.effective_edit_after_stop {
+    if kind == 9 {
+        if nums.contains(&cmd.parse::<u16>().unwrap_or(0)) {
+            return Outcome::discard("no free line number");
+        }
+    } else if !eff || !h.effective_edit_after_stop {
         return Outcome::discard("the final edit did not change the listing");
     }
     let mut o = h.opts(3000);
     h.term.line("TRON", &mut o);
     h.term.take();
-    let probe = t.pick(&["CONT", "RETURN", "NEXT", "PRINT FNA(1)", "PRINT FNB$(1,2)", "NEXT I", "RETURN:RETURN", "PRINT FNA(1,\"A\")"]).to_string();
+    let mut probe = t.pick(&["CONT", "RETURN", "NEXT", "PRINT FNA(1)", "PRINT FNB$(1,2)", "NEXT I", "RETURN:RETURN", "PRINT FNA(1,\"A\")"]).to_string();
+    if kind == 9 && !h.effective_edit_after_stop {
+        // the program is the one that was stopped: only the continuation point is gone
+        probe = "CONT".to_string();
+    }
     h.note(&format!("enter \"TRON\"\nenter {:?}   <- must not execute any program line", probe));
     crate::runner::note_case(&h.script);
     h.term.line(&probe, &mut o);
@@ -483,6 +539,7 @@ fn check_no_resume(t: &mut Tape, ctx: &Ctx) -> Outcome {
         6 => "edit kind: case-only change inside a string literal",
         7 => "edit kind: NEW",
         8 => "edit kind: load (set_listing)",
+        9 => "edit kind: bare number of a line that does not exist",
         _ => "edit kind: RENUM",
     });
     labels.sort();
